@@ -397,7 +397,7 @@ def u_renderer_frame(ctx):
                 e.raise_(ExcVal(exc), e.fork(s), fault=True)
             return [(Opaque("render result"), s)]
         chk, anim, scr = z3.Bools("check_size animated scroll")
-        st.env.update(self=self_, renderer=Fn(renderer), args=(), kwargs=st.new("dict", {"items": {}}), scroll=scr, check_size=chk, animated=anim)
+        st.env.update(self=self_, renderer=Fn(renderer), args=(), kwargs=st.new("dict", {"@items": {}}), scroll=scr, check_size=chk, animated=anim)
         outs = run_function(eng, ctx.fn(COMMON, "BaseImage._renderer"), st)
         before = member if dynamic else fixed
         for kind, val, s in outs:
